@@ -22,6 +22,8 @@ import (
 
 	"github.com/containerd/nri/pkg/api"
 
+	balloons "github.com/containers/nri-plugins/cmd/plugins/balloons/policy"
+	topologyaware "github.com/containers/nri-plugins/cmd/plugins/topology-aware/policy"
 	cfgapi "github.com/containers/nri-plugins/pkg/apis/config/v1alpha1"
 	policycfg "github.com/containers/nri-plugins/pkg/apis/config/v1alpha1/resmgr/policy"
 	bcfg "github.com/containers/nri-plugins/pkg/apis/config/v1alpha1/resmgr/policy/balloons"
@@ -221,13 +223,20 @@ func TestVerifC14Chaos(t *testing.T) {
 			}
 			return vChaosPod(rng, id) // unknown to the plugin, or a different incarnation with the same id
 		}
+		// a container id belongs to one pod for good (runtime ids are unique): requests may repeat, come out of order or
+		// name ids the plugin has forgotten, but an id never moves to another pod
+		podOf := map[string]string{}
+		nameOf := map[string]string{}
 		getCtr := func(id string) *vCtr {
 			if c, ok := ctrs[id]; ok && rng.Intn(5) != 0 {
 				return c
 			}
-			p := getPod(pid())
+			if _, ok := podOf[id]; !ok {
+				podOf[id], nameOf[id] = pid(), "ctr"+strconv.Itoa(rng.Intn(3))
+			}
+			p := getPod(podOf[id])
 			c := vGenCtr(rng, p, 0, len(m.Online()))
-			c.id, c.name = id, "ctr"+strconv.Itoa(rng.Intn(3))
+			c.id, c.name = id, nameOf[id]
 			return c
 		}
 		// reference: the plain lifecycle on the fresh plugin
@@ -259,6 +268,11 @@ func TestVerifC14Chaos(t *testing.T) {
 			case r < 48:
 				c := getCtr(cid())
 				nc := vChaosCtr(rng, c)
+				if cc, ok := h.m.cache.LookupContainer(c.id); ok && cc.GetState() != cache.ContainerStateExited {
+					// a duplicated CreateContainer for a container that is still live: the property only demands that it does not
+					// crash; if it is accepted the container is booked twice, which may later exhaust the CPUs
+					fmt.Fprintf(w, "X leaky %s\n", c.id)
+				}
 				res := call("create "+c.id+" in "+c.pod.id, func() error { _, _, err := h.m.nri.CreateContainer(ctx, c.pod.nri(), nc); return err })
 				if res == "ok" {
 					ctrs[c.id] = c
@@ -341,7 +355,21 @@ func TestVerifC14Chaos(t *testing.T) {
 		fp := &vPod{id: "final", name: "final", ns: "default", qos: "BestEffort", ann: map[string]string{}}
 		fc := &vCtr{id: "finalc", name: "ctr0", pod: fp}
 		call("final-runpod", func() error { return h.m.nri.RunPodSandbox(ctx, fp.nri()) })
-		call("final-create", func() error { _, _, err := h.m.nri.CreateContainer(ctx, fp.nri(), fc.nri()); return err })
+		if call("final-create", func() error { _, _, err := h.m.nri.CreateContainer(ctx, fp.nri(), fc.nri()); return err }) != "ok" {
+			// diagnosis aid: what still holds resources
+			fmt.Fprintf(w, "Z cache %s\n", h.vCacheView())
+			var snap []string
+			if pol == "balloons" {
+				snap = balloons.VerifSnapshot(h.backend)
+			} else {
+				snap = topologyaware.VerifSnapshot(h.backend)
+			}
+			for _, l := range snap {
+				if !strings.HasPrefix(l, "BL ") && !strings.HasPrefix(l, "PN ") {
+					fmt.Fprintf(w, "Z %s\n", l)
+				}
+			}
+		}
 		call("final-start", func() error { return h.m.nri.StartContainer(ctx, fp.nri(), fc.nri()) })
 		call("final-stop", func() error { _, err := h.m.nri.StopContainer(ctx, fp.nri(), fc.nri()); return err })
 		call("final-remove", func() error { return h.m.nri.RemoveContainer(ctx, fp.nri(), fc.nri()) })
